@@ -588,14 +588,40 @@ def applyPositionRestrictions (group : List TagInfo) : List TagInfo :=
   let restricted := group.filter (·.pos.isSome)
   if restricted.length > 1 then refill group (restricted.mergeSort posLe) else group
 
+/-- `char::is_whitespace` (Unicode `White_Space`), as used by `str::trim_start` -/
+def isRustWs (c : Char) : Bool :=
+  let v := c.toNat
+  (9 ≤ v && v ≤ 13) || v == 0x20 || v == 0x85 || v == 0xA0 || v == 0x1680 || (0x2000 ≤ v && v ≤ 0x200A) ||
+    v == 0x2028 || v == 0x2029 || v == 0x202F || v == 0x205F || v == 0x3000
+
+/-- `comment.trim_start().starts_with("//")` -/
+def isLineCommentText (text : List Char) : Bool :=
+  match text.dropWhile isRustWs with
+  | '/' :: '/' :: _ => true
+  | _ => false
+
+/-- `if after_line_comment && start_offset == 0 { 1 } else { start_offset }` -/
+def bumpOff (afterLineComment : Bool) (startOff : Nat) : Nat :=
+  if afterLineComment ∧ startOff = 0 then 1 else startOff
+
+/-- the loop of `add_group` (after the `fix:` commit: a line comment extends to the end of its line, so whatever is
+    written next starts on a new line); the flag is `after_line_comment` -/
+def addGroupGo (indent : Nat) : Bool → List TagInfo → List Char
+  | _, [] => []
+  | alc, item :: rest =>
+    if item.isComment then
+      if item.included then addGroupGo indent alc rest
+      else
+        List.replicate (bumpOff alc item.startOff) '\n' ++ item.text ++
+          addGroupGo indent (isLineCommentText item.text) rest
+    else
+      addWhitespace indent (bumpOff alc item.startOff) ++ (if item.isBlock then "/begin ".toList else []) ++ item.tag ++
+        item.text ++ (if item.isBlock then addWhitespace indent item.endOff ++ "/end ".toList ++ item.tag else []) ++
+        addGroupGo indent false rest
+
 /-- `add_group` (elements from include files are outside this model: `incfile = None` everywhere) -/
 def addGroup (indent : Nat) (group : List TagInfo) : List Char :=
-  (applyPositionRestrictions (group.mergeSort tagLe)).flatMap fun item =>
-    if item.isComment then
-      if item.included then [] else List.replicate item.startOff '\n' ++ item.text
-    else
-      addWhitespace indent item.startOff ++ (if item.isBlock then "/begin ".toList else []) ++ item.tag ++ item.text ++
-        (if item.isBlock then addWhitespace indent item.endOff ++ "/end ".toList ++ item.tag else [])
+  addGroupGo indent false (applyPositionRestrictions (group.mergeSort tagLe))
 
 def symText (symbols : Array String) (i : Nat) : List Char := (symbols[i]?.getD "?").toList
 
